@@ -17,6 +17,19 @@
 (*             added loss j = 10^(3+j) * (7 | 3 + batch index), main term  *)
 (*             = 10^6 * batch position.  Definition side: the declarative  *)
 (*             sum over the SET of registered priors / terms.              *)
+(*             The batch shape of the TARGET (cf.tb) is a dimension of its *)
+(*             own: it only has to broadcast against the batch shape of    *)
+(*             the marginal distribution (cf.B: inputs and batched         *)
+(*             parameters).  TargetShapes(B) enumerates the class: equal,  *)
+(*             extra leading dimensions (sizes Extras), batch dimensions   *)
+(*             missing (every proper suffix, unit dimensions squeezed      *)
+(*             out), unit dimensions in place of batch dimensions, the     *)
+(*             distribution's unit dimensions widened, both at once.  The  *)
+(*             objective has the broadcast shape OB; element q of it reads *)
+(*             the batch element of every batched parameter / added loss   *)
+(*             that broadcasting assigns to it, and the divisor is the     *)
+(*             number of observations of ONE batch element (N x tasks)     *)
+(*             whatever the two batch shapes are.                          *)
 (*  "sum"      SumMarginalLogLikelihood = mean over the member models of   *)
 (*             their objectives.                                           *)
 (*  "rational" exact rational instances (K = X X^T, integer noise, mean    *)
@@ -36,6 +49,15 @@
 (* "prior_batch_shape": a prior term is reduced over the parameter's own   *)
 (* non-batch dimensions (known from the owning module) instead of over     *)
 (* whatever follows its first res.ndim dimensions.                         *)
+(* "loo_broadcast": LeaveOneOutPseudoLikelihood broadcasts the marginal    *)
+(* mean against the target instead of reshaping it to the target's shape   *)
+(* (m.reshape(target.shape) raises when the element counts differ and      *)
+(* silently pairs the wrong batch elements when they happen to agree).     *)
+(* DivSlips = modelled slips of the divisor ({} is the tree): with         *)
+(* "num_data_from_target" (the number of observations is read off the      *)
+(* target's shape behind the distribution's batch dimensions) TLC must     *)
+(* find a configuration whose target batch shape differs from the          *)
+(* distribution's.                                                         *)
 (* Every state carries the definition (out.exp), the transcribed code of   *)
 (* the tree (out.code, out.agree) and of the fully repaired code           *)
 (* (out.repaired).  Invariants: AssemblyOK (repaired code = definition on  *)
@@ -68,6 +90,7 @@
 EXTENDS LinAlg
 
 CONSTANTS Part, Repairs, Archs, Batches, Ns, MaxModels, Instances,
+          Extras, PatternBatches, DivSlips,                        \* target batch shapes (parts "assembly", "lattice")
           RegMenu, HistLen, MaxObjs, MaxGen, SetHows, Slips      \* part "history"
 
 VARIABLES c,       \* the enumerated configuration / instance / cell
@@ -84,6 +107,7 @@ Flat(ss) == IF ss = <<>> THEN <<>> ELSE Head(ss) \o Flat(Tail(ss))
 RECURSIVE Pow10(_)
 Pow10(k) == IF k = 0 THEN 1 ELSE 10 * Pow10(k - 1)
 IMin(a, b) == IF a < b THEN a ELSE b
+IMax(a, b) == IF a < b THEN b ELSE a
 \* first occurrences only (a memo set during a traversal)
 RECURSIVE Dedup(_)
 Dedup(s) ==
@@ -105,6 +129,28 @@ BPos(q, rs, ts) ==
   LET p == PadL(ts, Len(rs)) idx == Unravel(q - 1, rs)
   IN Ravel([i \in 1..Len(rs) |-> IF p[i] = 1 THEN 0 ELSE idx[i]], p) + 1
 
+\* right-aligned broadcast of two shapes
+Compatible(a, b) ==
+  LET r == IMax(Len(a), Len(b)) pa == PadL(a, r) pb == PadL(b, r) IN \A i \in 1..r : pa[i] = pb[i] \/ pa[i] = 1 \/ pb[i] = 1
+Bcast(a, b) ==
+  LET r == IMax(Len(a), Len(b)) pa == PadL(a, r) pb == PadL(b, r) IN [i \in 1..r |-> IF pa[i] = 1 THEN pb[i] ELSE pa[i]]
+
+\* ---- the batch shapes a target may have against the batch shape B of the distribution
+Wide == 3
+HasUnit(B) == \E i \in 1..Len(B) : B[i] = 1
+Suffixes(B) == {SubSeq(B, i, Len(B)) : i \in 2..(Len(B) + 1)}                  \* leading batch dimensions missing (all: <<>>)
+Squeezed(B) == {SelectSeq(B, LAMBDA d : d # 1)}                                \* unit dimensions dropped
+Unitised(B) == {[i \in 1..Len(B) |-> IF i \in S THEN 1 ELSE B[i]] : S \in SUBSET {i \in 1..Len(B) : B[i] # 1}}
+Widened(B) == IF HasUnit(B) THEN {[i \in 1..Len(B) |-> IF B[i] = 1 THEN Wide ELSE B[i]]} ELSE {}
+Mixed(B) == IF HasUnit(B) /\ (\E i \in 1..Len(B) : B[i] # 1) THEN {[i \in 1..Len(B) |-> IF B[i] = 1 THEN Wide ELSE 1]} ELSE {}
+TargetShapes(B) ==
+  {tb \in {B} \cup {<<s>> \o B : s \in Extras} \cup Suffixes(B) \cup Squeezed(B) \cup Unitised(B) \cup Widened(B) \cup Mixed(B) : Compatible(B, tb)}
+Pattern(B, tb) ==
+  IF tb = B THEN "equal" ELSE IF Len(tb) > Len(B) THEN "extra" ELSE IF Len(tb) < Len(B) THEN "lacks"
+  ELSE IF Bcast(B, tb) = B THEN "unit" ELSE IF Bcast(B, tb) = tb THEN "widen" ELSE "mixed"
+\* the two shapes differ by leading unit dimensions only (reshaping one to the other moves no element to another batch element)
+Aligned(B, tb) == LET r == IMax(Len(B), Len(tb)) IN PadL(B, r) = PadL(tb, r)
+
 \* t.view(t.shape[:r] + (-1,)).sum(dim=-1)
 ViewLeadSum(t, r) ==
   LET k == IMin(r, Len(t.sh)) lead == SubSeq(t.sh, 1, k) rest == IProd(SubSeq(t.sh, k + 1, Len(t.sh)))
@@ -121,11 +167,17 @@ AddOut(res, t) ==
   ELSE TErr
 
 \* ============================ part "assembly" ==================================================
-\* configuration: arch, obj, B (batch shape of the objective), n (data points), stub (multiplier of the main term),
+\* configuration: arch, obj, B (batch shape of the marginal distribution: inputs and batched parameters), tb (batch shape of
+\*   the target), n (data points), stub (multiplier of the main term),
 \*   pri[k] in none | flat (parameter without batch dimensions) | batch (parameter with batch shape B), k = slot,
 \*   loss[j] in unreg | pending (registered, never updated: None) | scalar | batch
 Slots == 1..4
-AllRepairs == {"prior_memo", "prior_batch_shape"}
+AllRepairs == {"prior_memo", "prior_batch_shape", "loo_broadcast"}
+AllDivSlips == {"num_data_from_target"}
+\* batch shape of the objective: one value per broadcast batch element
+OB(cf) == Bcast(cf.B, cf.tb)
+\* 1-based batch element of the distribution (of a parameter / added loss term with batch shape B) that element q of the objective reads
+DistPos(cf, q) == BPos(q, OB(cf), cf.B)
 Tasks(arch) == IF arch = "mtask" THEN 2 ELSE 1
 
 \* module DAG.  plain: 1 model, 2 likelihood, 3 likelihood.noise_covar, 4 mean_module, 5 covar_module (ScaleKernel), 8 base_kernel
@@ -151,7 +203,7 @@ PriorTerm(cf, k) ==
 LossTerm(cf, j) ==
   IF cf.loss[j] = "batch" THEN Tn(cf.B, [q \in 1..IProd(cf.B) |-> Pow10(3 + j) * (2 + q)])
   ELSE Tn(<<>>, <<Pow10(3 + j) * 7>>)
-MainStub(cf) == Tn(cf.B, [q \in 1..IProd(cf.B) |-> 1000000 * cf.stub * q])
+MainStub(cf) == Tn(OB(cf), [q \in 1..IProd(OB(cf)) |-> 1000000 * cf.stub * q])
 
 \* ---- code side ----
 RECURSIVE Walk(_, _)          \* pre-order over named_children, a module is visited once per path
@@ -173,66 +225,105 @@ FoldPrior(cf, res, ks, reps) == IF ks = <<>> THEN res ELSE FoldPrior(cf, AddIn(r
 AddOtherTerms(cf, res, reps) == FoldPrior(cf, FoldLoss(cf, res, CodeLosses(cf)), CodePriors(cf, reps), reps)
 
 \* mll: function_dist.event_shape.numel(); loo: target.size(-1)
-CodeDiv(cf) == IF cf.obj = "mll" THEN cf.n * Tasks(cf.arch) ELSE cf.n
+\* slip "num_data_from_target": target.shape[len(output.batch_shape):].numel()
+TargetShape(cf) == cf.tb \o <<cf.n>> \o (IF cf.arch = "mtask" THEN <<2>> ELSE <<>>)
+CodeDiv(cf) ==
+  IF "num_data_from_target" \in DivSlips /\ cf.obj = "mll" THEN IProd(SubSeq(TargetShape(cf), Len(cf.B) + 1, Len(TargetShape(cf))))
+  ELSE IF cf.obj = "mll" THEN cf.n * Tasks(cf.arch) ELSE cf.n
+\* loo: m = m.reshape(target.shape) raises when the element counts differ; otherwise element q of the objective reads the
+\* mean at the flat batch position its TARGET has, which is its own batch element of the distribution between aligned shapes
+\* (and does not matter when the mean is not batched)
+LooShapeOK(cf, reps) ==
+  cf.obj = "loo" =>
+     \/ "loo_broadcast" \in reps
+     \/ /\ IProd(cf.B) = IProd(cf.tb)
+        /\ cf.pri[2] # "batch" \/ \A q \in 1..IProd(OB(cf)) : BPos(q, OB(cf), cf.tb) = BPos(q, OB(cf), cf.B)
 \* value = v + hc * (log(2 pi) / 2), v exact rationals per batch element
 CodeObj(cf, reps) ==
   LET r == AddOtherTerms(cf, MainStub(cf), reps)
-  IN IF r.err THEN [err |-> TRUE, v |-> <<>>, hc |-> RZero]
+  IN IF r.err \/ ~LooShapeOK(cf, reps) THEN [err |-> TRUE, v |-> <<>>, hc |-> RZero]
      ELSE [err |-> FALSE, v |-> [q \in 1..IProd(r.sh) |-> RQ(r.d[q], CodeDiv(cf))], hc |-> IF cf.obj = "loo" THEN R(-1) ELSE RZero]
 CodeOther(cf, reps) ==
   LET r == AddOtherTerms(cf, MainStub(cf), reps)
-  IN IF r.err \/ r.sh # cf.B THEN [err |-> TRUE, other |-> <<>>]
+  IN IF r.err \/ r.sh # OB(cf) \/ ~LooShapeOK(cf, reps) THEN [err |-> TRUE, other |-> <<>>]
      ELSE [err |-> FALSE, other |-> [q \in 1..IProd(r.sh) |-> r.d[q] - MainStub(cf).d[q]]]
 
 \* ---- definition side ----
 PriorSites(cf) == SelectSeq(<<1, 2, 3, 4>>, LAMBDA k : cf.pri[k] # "none")
 LossSites(cf) == SelectSeq(<<1, 2>>, LAMBDA j : cf.loss[j] \in {"scalar", "batch"})
-\* log prior density of parameter k as seen by batch element q: every element of the parameter that belongs to it
+\* log prior density of parameter k as seen by batch element q of the objective: every element of the parameter that belongs
+\* to the batch element of the distribution that q reads
 DefPrior(cf, k, q) ==
-  LET t == IProd(SiteTail(cf.arch, k)) own == IF cf.pri[k] = "batch" THEN q - 1 ELSE 0
+  LET t == IProd(SiteTail(cf.arch, k)) own == IF cf.pri[k] = "batch" THEN DistPos(cf, q) - 1 ELSE 0
   IN Pow10(k - 1) * ISum([e \in 1..t |-> own + e])
-DefLoss(cf, j, q) == IF cf.loss[j] = "batch" THEN Pow10(3 + j) * (2 + q) ELSE Pow10(3 + j) * 7
+DefLoss(cf, j, q) == IF cf.loss[j] = "batch" THEN Pow10(3 + j) * (2 + DistPos(cf, q)) ELSE Pow10(3 + j) * 7
 DefOther(cf, q) ==
   LET ps == PriorSites(cf) ls == LossSites(cf)
   IN ISum([i \in 1..Len(ps) |-> DefPrior(cf, ps[i], q)]) + ISum([i \in 1..Len(ls) |-> DefLoss(cf, ls[i], q)])
+\* the number of observations of ONE batch element: it depends neither on the batch shape of the distribution nor on the
+\* batch shape of the target
 NObs(cf) == cf.n * Tasks(cf.arch)
 \* loo: the main stub is sum_i a_i with log p(y_i | y_-i) = a_i - log(2 pi)/2, so the mean carries -n/n of the constant
 DefObj(cf) ==
   [err |-> FALSE,
-   v |-> [q \in 1..IProd(cf.B) |-> RQ(MainStub(cf).d[q] + DefOther(cf, q), NObs(cf))],
+   v |-> [q \in 1..IProd(OB(cf)) |-> RQ(MainStub(cf).d[q] + DefOther(cf, q), NObs(cf))],
    hc |-> IF cf.obj = "loo" THEN RQ(-cf.n, cf.n) ELSE RZero]
 
 LossMenu(B) ==
   {<<"unreg", "unreg">>, <<"pending", "unreg">>, <<"scalar", "unreg">>, <<"unreg", "scalar">>, <<"pending", "scalar">>}
     \cup (IF B = <<>> THEN {} ELSE {<<"batch", "unreg">>, <<"scalar", "batch">>})
+\* away from equal batch shapes without unit dimensions: one module path, two added-loss settings, at most one prior site or
+\* all four sites of one kind; the target shapes are varied against the distribution batch shapes of PatternBatches
+SiteKinds(cf) == {cf.pri[k] : k \in Slots}
+PatternSub(cf) ==
+  /\ cf.arch # "shared"
+  /\ cf.loss \in {<<"unreg", "unreg">>, IF cf.B = <<>> THEN <<"scalar", "unreg">> ELSE <<"batch", "unreg">>}
+  /\ \/ Cardinality({k \in Slots : cf.pri[k] # "none"}) <= 1
+     \/ Cardinality(SiteKinds(cf)) = 1
+AsmTargets(B) == IF B \in PatternBatches THEN TargetShapes(B) ELSE {B}
 AsmOK(cf) ==
+  /\ (cf.tb # cf.B \/ HasUnit(cf.B)) => PatternSub(cf)
   /\ cf.obj = "loo" => cf.arch # "mtask"
   /\ cf.B = <<>> => \A k \in Slots : cf.pri[k] # "batch"
   /\ cf.loss \in LossMenu(cf.B)
   /\ cf.arch = "mtask" => {cf.pri[1], cf.pri[3]} # {"flat", "batch"}      \* one likelihood, one batch shape
   /\ cf.arch # "mtask" => ~(cf.pri[3] = "flat" /\ cf.pri[4] = "batch")    \* a ScaleKernel takes over the batch shape of its base kernel
 AsmConfigs ==
-  {cf \in [arch : Archs, obj : {"mll", "loo"}, B : Batches, n : Ns, stub : {1},
-           pri : [Slots -> {"none", "flat", "batch"}], loss : UNION {LossMenu(B) : B \in Batches}] : AsmOK(cf)}
+  UNION {{cf \in [arch : Archs, obj : {"mll", "loo"}, B : {B}, tb : {tb}, n : Ns, stub : {1},
+                  pri : [Slots -> IF B = <<>> THEN {"none", "flat"} ELSE {"none", "flat", "batch"}], loss : LossMenu(B)] : AsmOK(cf)}
+           : <<B, tb>> \in UNION {{<<B, tb>> : tb \in AsmTargets(B)} : B \in Batches}}
 
-\* where HEAD's shape inference and memo-less traversal are right: no module with a prior on two paths, and an unbatched
-\* parameter shows only singleton dimensions where the objective has batch dimensions
-ShapeConventional(cf) ==
-  \A k \in Slots : (cf.pri[k] = "flat") =>
-        LET tl == SiteTail(cf.arch, k) IN \A i \in 1..IMin(Len(cf.B), Len(tl)) : tl[i] = 1
-Conventional(cf) == ~(cf.arch = "shared" /\ cf.pri[4] # "none") /\ ShapeConventional(cf)
+\* where HEAD's shape inference and memo-less traversal are right: no module with a prior on two paths, and a parameter
+\* whose own batch shape (own) has fewer dimensions than the objective (rank r) - an unbatched parameter under a batch, any
+\* parameter under a target with extra leading dimensions - shows only singleton dimensions where the objective has the
+\* dimensions it lacks and has no batch dimension of its own that the shift would pair with the wrong dimension of the
+\* objective.  (own = <<>>: the first min(r, |tail|) dimensions of the parameter are 1.)
+TermConventional(own, tl, r) ==
+  LET t == IMin(r - Len(own), Len(tl))
+  IN t = 0 \/ ((\A i \in 1..t : tl[i] = 1) /\ (\A i \in 1..Len(own) : own[i] = 1))
+SlotConventional(cf, k) == cf.pri[k] # "none" => TermConventional(OwnBatch(cf, k), SiteTail(cf.arch, k), Len(OB(cf)))
+ShapeConventional(cf) == \A k \in Slots : SlotConventional(cf, k)
+Conventional(cf) == ~(cf.arch = "shared" /\ cf.pri[4] # "none") /\ ShapeConventional(cf) /\ LooShapeOK(cf, {})
 
 AsmOut(cf) ==
-  [exp |-> [other |-> [q \in 1..IProd(cf.B) |-> DefOther(cf, q)], div |-> NObs(cf), hc |-> IF cf.obj = "loo" THEN -1 ELSE 0],
+  [exp |-> [other |-> [q \in 1..IProd(OB(cf)) |-> DefOther(cf, q)], div |-> NObs(cf), hc |-> IF cf.obj = "loo" THEN -1 ELSE 0,
+            shape |-> OB(cf), pattern |-> Pattern(cf.B, cf.tb)],
+   \* which clause of Conventional fails (signatures of the replay)
+   why |-> [shape |-> [k \in Slots |-> ~SlotConventional(cf, k)], loo |-> ~LooShapeOK(cf, {}),
+            twice |-> cf.arch = "shared" /\ cf.pri[4] # "none"],
    code |-> CodeOther(cf, Repairs),
    agree |-> CodeObj(cf, Repairs) = DefObj(cf),                  \* the code as modelled for the tree under test
-   repaired |-> CodeObj(cf, AllRepairs) = DefObj(cf),            \* the code with both repairs
+   repaired |-> CodeObj(cf, AllRepairs) = DefObj(cf),            \* the code with every repair
+   divisor |-> CodeDiv(cf) = NObs(cf),
    conventional |-> Conventional(cf)]
 
 AssemblyOK == (Part = "assembly" /\ out # <<>>) => out.repaired
 ConventionalOK == (Part = "assembly" /\ out # <<>>) => (out.conventional => out.agree)
 \* as long as no repair is modelled the cells predicted to fail are exactly the unconventional ones
-PredictionsSharp == (Part = "assembly" /\ out # <<>> /\ Repairs = {}) => (out.agree <=> out.conventional)
+PredictionsSharp == (Part = "assembly" /\ out # <<>> /\ Repairs = {} /\ DivSlips = {}) => (out.agree <=> out.conventional)
+\* the divisor of the code of the tree is the number of observations of one batch element for EVERY pair of batch shapes
+\* (violated, as it must be, when DivSlips # {})
+DivisorOK == (Part = "assembly" /\ out # <<>>) => out.divisor
 
 \* ============================ part "sum" =======================================================
 CompMenu ==
@@ -240,7 +331,7 @@ CompMenu ==
    loss : {<<"unreg", "unreg">>, <<"scalar", "unreg">>}]
 SumConfigs == [cls : {"mll", "loo"}, comps : UNION {[1..m -> CompMenu] : m \in 1..MaxModels}]
 CompCfg(sc, i) ==
-  [arch |-> "plain", obj |-> sc.cls, B |-> <<>>, n |-> sc.comps[i].n, stub |-> i, pri |-> sc.comps[i].pri, loss |-> sc.comps[i].loss]
+  [arch |-> "plain", obj |-> sc.cls, B |-> <<>>, tb |-> <<>>, n |-> sc.comps[i].n, stub |-> i, pri |-> sc.comps[i].pri, loss |-> sc.comps[i].loss]
 \* sum(mll(output, target) for ...).div_(len(self.mlls))
 SumCode(sc) ==
   LET m == Len(sc.comps) vals == [i \in 1..m |-> CodeObj(CompCfg(sc, i), Repairs)]
@@ -310,17 +401,38 @@ PriorMenu ==
 \* the evaluated object (fresh: built and set; copy_set: deep copy of a model, then other hyperparameters; load: a freshly
 \* built model that loaded the state_dict of a model with other hyperparameters).  Away from (ctor, fresh) the solver
 \* setting, the mean and the second stationary kernel are not varied again.
+\* B: batch shape of every module of the model (kernel, mean, likelihood) = batch shape of the marginal distribution;
+\* tb: batch shape of the target (TargetShapes(B)); xb: the inputs carry the batch shape too ("batched") or one set of inputs is
+\* shared by the batch of hyperparameter settings ("shared").  Away from (tb = B without unit dimensions, batched inputs) the
+\* registration form, the history, the mean and the kernel are not varied again, the prior menu is PatternPriors and shared
+\* inputs meet the equal, the scalar (tb = <<>>) and the extra-dimension targets only.
+PatternPriors == {<<"none", "none", "none">>, <<"gamma", "gamma", "gamma">>, <<"normal", "lognormal", "gamma">>, <<"none", "gamma", "none">>}
+DenseBatches == {<<>>, <<2>>, <<1>>}
+\* own dimensions of the parameters of the dense models (ARD lengthscale 1 x 2, outputscale scalar, noise 1, task noises 2)
+DenseTail(site) == CASE site = "lengthscale" -> <<1, 2>> [] site = "outputscale" -> <<>> [] site = "noise" -> <<1>> [] site = "task_noises" -> <<2>>
+KernelParts(x) == IF x.kernel = "sum" THEN <<"1", "2">> ELSE <<"1">>
+CellSites(x) ==
+  (IF x.pri[1] = "none" THEN {} ELSE {"lengthscale"}) \cup (IF x.pri[2] = "none" THEN {} ELSE {"outputscale"})
+    \cup (IF x.pri[3] = "none" THEN {} ELSE IF x.lik = "mt0" THEN {"noise", "task_noises"} ELSE {"noise"})
+\* the float64 cells stay where the shape inference of _add_other_terms is right (part "assembly" decides the others exactly)
+DenseConventional(x) == \A site \in CellSites(x) : TermConventional(x.B, DenseTail(site), Len(Bcast(x.B, x.tb)))
+CellPlain(x) == x.tb = x.B /\ ~HasUnit(x.B) /\ x.xb = "batched"
 CellOK(x) ==
   /\ x.obj = "loo" => x.lik \in {"homo", "fixed"}
   /\ x.lik = "fixed" => x.pri[3] = "none"                \* no learned noise parameter
   /\ (x.reg # "ctor" \/ x.hist # "fresh") =>
         (x.path = "default" /\ x.mean = "const" /\ x.kernel # "matern" /\ x.pri # <<"none", "none", "none">>)
+  /\ x.tb \in TargetShapes(x.B)
+  /\ x.xb = "shared" => (x.B # <<>> /\ (x.tb = x.B \/ x.tb = <<>> \/ Len(x.tb) > Len(x.B)))
+  /\ ~CellPlain(x) => (x.reg = "ctor" /\ x.hist = "fresh" /\ x.mean = "const" /\ x.kernel = "rbf" /\ x.pri \in PatternPriors)
+  /\ x.tb = x.B => (CellPlain(x) \/ x.path = "default")
+  /\ DenseConventional(x)
 Cells ==
   {x \in [kernel : {"rbf", "matern", "sum"}, mean : {"const", "linear"}, lik : {"homo", "fixed", "mt0", "mt1"},
-          B : {<<>>, <<2>>}, pri : PriorMenu, obj : {"mll", "loo"}, path : {"chol_setting", "default"},
+          B : DenseBatches, tb : UNION {TargetShapes(B) : B \in DenseBatches}, xb : {"batched", "shared"},
+          pri : PriorMenu, obj : {"mll", "loo"}, path : {"chol_setting", "default"},
           reg : {"ctor", "name"}, hist : {"fresh", "copy_set", "load"}] : CellOK(x)}
 \* the parameters whose log prior density the definition contains: <<parameter, family>>
-KernelParts(x) == IF x.kernel = "sum" THEN <<"1", "2">> ELSE <<"1">>
 CellTerms(x) ==
   LET kp == KernelParts(x)
   IN (IF x.pri[1] = "none" THEN <<>> ELSE [i \in 1..Len(kp) |-> <<"lengthscale." \o kp[i], x.pri[1]>>])
@@ -329,8 +441,13 @@ CellTerms(x) ==
          ELSE IF x.lik = "mt0" THEN << <<"task_noises", x.pri[3]>>, <<"noise", x.pri[3]>> >>
          ELSE << <<"noise", x.pri[3]>> >>)
 CellOut(x) ==
-  [terms |-> CellTerms(x), tasks |-> IF x.lik \in {"mt0", "mt1"} THEN 2 ELSE 1, hc |-> IF x.obj = "loo" THEN -1 ELSE 0]
-LatticeOK == (Part = "lattice" /\ out # <<>>) => (out.tasks \in {1, 2} /\ \A i \in 1..Len(out.terms) : out.terms[i][2] # "none")
+  [terms |-> CellTerms(x), tasks |-> IF x.lik \in {"mt0", "mt1"} THEN 2 ELSE 1, hc |-> IF x.obj = "loo" THEN -1 ELSE 0,
+   \* one value per broadcast batch element, each divided by N x tasks
+   shape |-> Bcast(x.B, x.tb), pattern |-> Pattern(x.B, x.tb), looAligned |-> Aligned(x.B, x.tb)]
+LatticeOK ==
+  (Part = "lattice" /\ out # <<>>) =>
+     /\ out.tasks \in {1, 2} /\ \A i \in 1..Len(out.terms) : out.terms[i][2] # "none"
+     /\ Compatible(c.B, c.tb) /\ Compatible(c.B, out.shape) /\ Compatible(c.tb, out.shape) /\ Len(out.shape) = IMax(Len(c.B), Len(c.tb))
 
 \* ============================ part "history" ===================================================
 \* configuration h: arch (plain / shared), B, n, reg[k] in none | ctor | closure | name  (how the prior of slot k is registered)
@@ -339,7 +456,7 @@ LatticeOK == (Part = "lattice" /\ out # <<>>) => (out.tasks \in {1, 2} /\ \A i \
 AllSlips == {"name_captures_self"}
 \* the assembly configuration the object is an instance of: every registered prior sits on a parameter that carries the
 \* batch shape of the objective (conventional shapes: the shape inference of _add_other_terms is not the subject here)
-HCf(h) == [arch |-> h.arch, obj |-> "mll", B |-> h.B, n |-> h.n, stub |-> 1,
+HCf(h) == [arch |-> h.arch, obj |-> "mll", B |-> h.B, tb |-> h.B, n |-> h.n, stub |-> 1,
            pri |-> [k \in Slots |-> IF h.reg[k] = "none" THEN "none" ELSE IF h.B = <<>> THEN "flat" ELSE "batch"],
            loss |-> <<"unreg", "unreg">>]
 \* what register_prior stores for object o.  kind: a bound method of the module (constructor form: self._x_param) or a
